@@ -321,7 +321,7 @@ impl<'a> Gen<'a> {
     }
 
     fn preinstantiated(&self, ty: &Ty) -> bool {
-        if *ty == Ty::Int { return true; }
+        if *ty == Ty::Int || self.inst_stack.contains(ty) { return true; }
         let cur = self.defs[self.st.idx].order;
         let mut set = HashSet::new();
         for d in &self.defs {
@@ -340,6 +340,7 @@ impl<'a> Gen<'a> {
         let mut s = self.split(size.max(xs.len() + 1) - 1, xs.len());
         if size > 1 { for v in s.iter_mut() { *v = (*v).max(3).min(size - 1); } }
         let mut clauses = Vec::new();
+        self.inst_stack.push(ty.clone());
         for (i, x) in xs.iter().enumerate() {
             let mut ccx = self.closure_cx(cx);
             let mut binders: Vec<String> = Vec::new();
@@ -360,6 +361,7 @@ impl<'a> Gen<'a> {
             };
             clauses.push(Clause { xtor: x.name.clone(), binders, body });
         }
+        self.inst_stack.pop();
         if clauses.len() > 1 && self.rng.chance(1, 4) {
             self.feat("new_clauses_reordered");
             let n = clauses.len();
